@@ -160,11 +160,10 @@ class PCoin(PStochasticPattern):
         self.probability = Pattern.pattern(probability)
         self.regular = regular
 
-        self.current_value = 0.0
-        if regular:
-            # Initialise current_value to 1 in order to immediately trigger
-            # coin() if regular is True
-            self.current_value = 1.0
+        # current_value is only consulted in regular mode: initialise it to 1 in
+        # order to immediately trigger coin() there. `regular` may be a pattern,
+        # so it is resolved in __next__ and not tested here.
+        self.current_value = 1.0
 
     def __repr__(self):
         return ("PCoin(%s)" % self.probability)
